@@ -194,6 +194,17 @@ func checkLeak(c packcase.Case) error {
 			return fmt.Errorf("Unpack rejects the slug Pack produced from a tree whose links are all relative: %v", uerr)
 		}
 		ev.Label("unpack-accepts")
+		// ... also when the destination is named through a symlinked parent directory
+		os.Symlink(".", filepath.Join(run.R, "via"))
+		os.Mkdir(filepath.Join(run.R, "unpacked2"), 0755)
+		dst2 := filepath.Join(run.R, "via", "unpacked2")
+		uerr, panicked = pk.Unpack(pk.Opts{}, run.Vars, run.Slug, dst2)
+		if panicked != nil {
+			return fmt.Errorf("Unpack (destination below a symlinked parent) panicked on Pack's output: %v", panicked)
+		}
+		if uerr != nil {
+			return fmt.Errorf("Unpack into a destination below a symlinked parent rejects the slug Pack produced from a tree whose links are all relative: %v", uerr)
+		}
 	}
 	return nil
 }
